@@ -60,13 +60,17 @@ int main() { arr_real h = {1.0, 1.0}; arr_real x(12); for (int i = 0; i < 12; ++
 @adapter(r'statics\(lib/random\.cpp\)|dsplib::rng|randn|randi|dsplib::rand|awgn')
 def random_streams(o):
     """C19/C09: rng(seed) replays the stream whatever was drawn before (odd and even block lengths), and seeding in one thread
-    does not change what a thread started later draws"""
+    does not change what a thread started later draws; randi stays inside its inclusive bounds (negative ranges too) and reaches both"""
     return '#include <thread>\n' + HDR + '''
 static bool eq(const arr_real& a, const arr_real& b) { if (a.size() != b.size()) return false; for (int i = 0; i < a.size(); ++i) if (a[i] != b[i]) return false; return true; }
 int main() { rng(5); arr_real ref = randn(16); arr_real uref = rand(9); arr_int iref = randi(100, 7);
   for (int pre : {0, 1, 2, 3, 7}) { rng(99); if (pre) (void)randn(pre); rng(5); arr_real a = randn(16); arr_real u = rand(9); arr_int ii = randi(100, 7);
     if (!eq(a, ref) || !eq(u, uref)) { std::printf("after %d earlier draws rng(5) does not replay the stream (first sample %g, expected %g)\\n", pre, a[0], ref[0]); return 1; }
     for (int k = 0; k < 7; ++k) if (ii[k] != iref[k]) { std::printf("randi stream not replayed\\n"); return 1; } }
+  for (int lo : {-10, -5, -4, 0, 3}) for (int hi : {-4, -2, -1, 0, 7}) { if (lo > hi) continue; rng(lo * 31 + hi); bool sawlo = false, sawhi = false;
+    for (int k = 0; k < 4000; ++k) { int v = randi({lo, hi}); if (v < lo || v > hi) { std::printf("randi({%d, %d}) returned %d\\n", lo, hi, v); return 1; } sawlo |= (v == lo); sawhi |= (v == hi); }
+    arr_int blk = randi({lo, hi}, 500); for (int k = 0; k < 500; ++k) if (blk[k] < lo || blk[k] > hi) { std::printf("randi({%d, %d}, 500)[%d] = %d\\n", lo, hi, k, blk[k]); return 1; }
+    if (hi - lo <= 8 && !(sawlo && sawhi)) { std::printf("randi({%d, %d}): 4000 draws never returned %s\\n", lo, hi, sawlo ? "the upper bound" : "the lower bound"); return 1; } }
   arr_real fresh; { std::thread t([&]{ fresh = randn(8); }); t.join(); }          // what a new thread draws without any seeding anywhere... this thread has seeded already:
   rng(12345); arr_real later; { std::thread t([&]{ later = randn(8); }); t.join(); }
   rng(777); arr_real later2; { std::thread t([&]{ later2 = randn(8); }); t.join(); }
